@@ -13,6 +13,14 @@
 (*                          gone     <<a,b,g>>: a's connection g to b died, *)
 (*                                   handleDisconnect(+agent callback) at a *)
 (*                                   has not run yet                        *)
+(*                          torn     subset of gone: the clean-up of that   *)
+(*                                   connection has already been done when  *)
+(*                                   the peer was registered again (a       *)
+(*                                   connection the agent dropped itself -  *)
+(*                                   Sleep - and that reconnected before    *)
+(*                                   its read loop reported: peer.Manager   *)
+(*                                   .awaitingTeardown); the late PeerGone  *)
+(*                                   is a no-op                             *)
 (*                          pend     <<a,b>>: handlePeerConnected at a for  *)
 (*                                   b has not run yet (SendFullTable)      *)
 (*   routes (Flood)         ctr, seen, tbl; entries                          *)
@@ -54,8 +62,12 @@
 (*                                                                         *)
 (* What the code does and the model keeps: routes of a lost peer stay until*)
 (* that end's PeerGone; a replayed announcement that the receiver has      *)
-(* already seen is dropped (routes come back with the origin's next        *)
-(* announcement); frames are sent BY IDENTITY over whatever connection is  *)
+(* already seen is dropped - the disconnect handling therefore forgets the *)
+(* seen-cache entries of the routes it removes (since 0a48014), so that    *)
+(* the table replay of the reconnecting peer restores them; a route lost   *)
+(* at b is NOT restored from another neighbour that still holds it (no     *)
+(* replay without a reconnect): it comes back with the origin's next       *)
+(* announcement; frames are sent BY IDENTITY over whatever connection is   *)
 (* registered; nobody tells the endpoints of a tunnel that a hop was lost: *)
 (* ingress stream records live until the application closes, exit records  *)
 (* until the next failed write / idle timeout.  Such a left-over record is *)
@@ -64,9 +76,11 @@
 (*                                                                         *)
 (* Deviations (Dev): DevRouteKeptAfterDisconnect, DevRelayKeptAfterDisconnect,*)
 (* DevTunnelOverUnregistered (frames of a dead connection are still        *)
-(* processed), DevSkipCleanupWhenSuperseded (the disconnect callback is    *)
-(* skipped when a newer connection of the same identity is registered -    *)
-(* the pinned code, see PeerReg.tla / peer.Manager.handleDisconnect),      *)
+(* processed), DevSkipCleanupWhenSuperseded (registration does not finish   *)
+(* the clean-up of a connection the agent dropped itself, and the late      *)
+(* disconnect callback is skipped because a newer connection of the same    *)
+(* identity is registered - the code before 3c80d8e, see PeerReg.tla /      *)
+(* peer.Manager.handleDisconnect),                                          *)
 (* DevSleepKeepsConnections, DevRelayDuplicatesData,                       *)
 (* DevNoForwardToReconnected (flooding uses the peer set of start-up),     *)
 (* DevEndpointSurvivesReconnect (an ingress / exit record whose connection *)
@@ -103,13 +117,13 @@ Tunnels == 1..MaxTun
 
 VARIABLES topo,    \* [links, exits, sleepers, ingress]; never changes (a variable so that recorded executions with
                    \* different set-ups are validated in one TLC run)
-          awake, wann, gen, live, reg, gone, pend,
+          awake, wann, gen, live, reg, gone, torn, pend,
           ctr, seen, tbl, clean,
           q,
           tun, relay, ingr, exr, sentN, rcvX, echoN, rcvI,
           bud, last
 
-connVars  == <<topo, awake, wann, gen, live, reg, gone, pend>>
+connVars  == <<topo, awake, wann, gen, live, reg, gone, torn, pend>>
 floodVars == <<ctr, seen, tbl, clean>>
 tunVars   == <<tun, relay, ingr, exr, sentN, rcvX, echoN, rcvI>>
 vars == <<connVars, floodVars, q, tunVars, bud, last>>
@@ -138,7 +152,7 @@ Blank(tp) ==
 InitWith(tp) ==
   LET b == Blank(tp) IN
   /\ topo = b.topo /\ awake = b.awake /\ wann = b.wann /\ gen = b.gen /\ live = b.live /\ reg = b.reg
-  /\ gone = {} /\ pend = {}
+  /\ gone = {} /\ torn = {} /\ pend = {}
   /\ ctr = b.ctr /\ seen = b.seen /\ tbl = b.tbl /\ clean = b.clean /\ q = b.q
   /\ tun = b.tun /\ relay = b.none /\ ingr = b.none /\ exr = b.none
   /\ sentN = b.zero /\ echoN = b.zero /\ rcvX = b.nil /\ rcvI = b.nil
@@ -149,7 +163,7 @@ InitWith(tp) ==
 ResetTo(tp) ==
   LET b == Blank(tp) IN
   /\ topo' = b.topo /\ awake' = b.awake /\ wann' = b.wann /\ gen' = b.gen /\ live' = b.live /\ reg' = b.reg
-  /\ gone' = {} /\ pend' = {}
+  /\ gone' = {} /\ torn' = {} /\ pend' = {}
   /\ ctr' = b.ctr /\ seen' = b.seen /\ tbl' = b.tbl /\ clean' = b.clean /\ q' = b.q
   /\ tun' = b.tun /\ relay' = b.none /\ ingr' = b.none /\ exr' = b.none
   /\ sentN' = b.zero /\ echoN' = b.zero /\ rcvX' = b.nil /\ rcvI' = b.nil
@@ -173,19 +187,42 @@ Adv(o, sq, path, sb, rs) == [k |-> "adv", g |-> 0, o |-> o, seq |-> sq, path |->
 OwnRoutes(o) == IF o \in topo.exits THEN {"x", "p"} ELSE {"p"}
 
 (* ---- connections ----------------------------------------------------------*)
+\* what handlePeerDisconnect removes at a for the connections G (generations) to peer b: relay entries, routes, and
+\* the seen-cache entries of the announcements those routes came from (so that the peer's table replay can restore them)
+codeLike == "DevSkipCleanupWhenSuperseded" \in Dev       \* the clean-up is keyed by identity, as in the code
+RmRoutes(a, b, G) == {e \in tbl[a] : e.nh = b /\ (codeLike \/ e.g \in G)}
+RmRelays(a, b, G) == {e \in relay[a] : (e.up = b /\ (codeLike \/ e.ug \in G)) \/ (e.dn = b /\ (codeLike \/ e.dg \in G))}
+TblAfter(a, b, G) == IF "DevRouteKeptAfterDisconnect" \in Dev THEN tbl[a] ELSE tbl[a] \ RmRoutes(a, b, G)
+SeenAfter(a, b, G) == IF "DevRouteKeptAfterDisconnect" \in Dev THEN seen[a] ELSE seen[a] \ {<<e.o, e.seq>> : e \in RmRoutes(a, b, G)}
+RelayAfter(a, b, G) == IF "DevRelayKeptAfterDisconnect" \in Dev THEN relay[a] ELSE relay[a] \ RmRelays(a, b, G)
+
+\* connections of a to b that a dropped itself and whose disconnect handling has not run yet (reg[a][b] = 0 already)
+Dropped(a, b) == {x \in gone \ torn : x[1] = a /\ x[2] = b}
+
+(* A new connection on link l is registered at both ends (registerConnection).  An end that still has a dropped, not *)
+(* yet torn down connection to this peer first runs that connection's disconnect clean-up: afterwards its late        *)
+(* handleDisconnect would count as superseded and could not clean up any more.                                       *)
 Connect(l) ==
   /\ l \in topo.links /\ live[l] = 0 /\ gen[l] < MaxGen
   /\ \A a \in l : awake[a]
   /\ \A a \in l, b \in l : a # b => reg[a][b] = 0         \* a dial is rejected while the old connection is registered
   /\ "DevTunnelOverUnregistered" \in Dev \/ \A a \in l, b \in l : a # b => q[<<a, b>>] = <<>>
-  /\ LET g == gen[l] + 1 IN
+  /\ LET g == gen[l] + 1
+         Oth(a) == CHOOSE b \in l : b # a
+         D(a) == IF a \in l /\ ~codeLike THEN Dropped(a, Oth(a)) ELSE {}
+         G(a) == {x[3] : x \in D(a)}
+     IN
      /\ gen' = [gen EXCEPT ![l] = g]
      /\ live' = [live EXCEPT ![l] = g]
      /\ reg' = [a \in Agent |-> [b \in Agent |-> IF a \in l /\ b \in l /\ a # b THEN g ELSE reg[a][b]]]
-     /\ last' = [act |-> "Connect", l |-> l, g |-> g]
+     /\ torn' = torn \cup UNION {D(a) : a \in l}
+     /\ tbl' = [a \in Agent |-> IF D(a) # {} THEN TblAfter(a, Oth(a), G(a)) ELSE tbl[a]]
+     /\ seen' = [a \in Agent |-> IF D(a) # {} THEN SeenAfter(a, Oth(a), G(a)) ELSE seen[a]]
+     /\ relay' = [a \in Agent |-> IF D(a) # {} THEN RelayAfter(a, Oth(a), G(a)) ELSE relay[a]]
+     /\ last' = [act |-> "Connect", l |-> l, g |-> g, tornDown |-> UNION {D(a) : a \in l}]
   /\ pend' = pend \cup ({<<a, b>> : a \in l, b \in l} \ {<<a, a>> : a \in l})
   /\ clean' = [a \in Agent |-> FALSE]
-  /\ UNCHANGED <<topo, awake, wann, gone, ctr, seen, tbl, q, tunVars, bud>>
+  /\ UNCHANGED <<topo, awake, wann, gone, ctr, q, tun, ingr, exr, sentN, rcvX, echoN, rcvI, bud>>
 
 KeepStale == "DevTunnelOverUnregistered" \in Dev
 \* frames in flight on a dead connection are lost (the deviation keeps the tunnel frames: they are processed later
@@ -201,24 +238,26 @@ LinkFail(l) ==
   /\ clean' = [a \in Agent |-> FALSE]
   /\ bud' = [bud EXCEPT !.fail = @ + 1]
   /\ last' = [act |-> "LinkFail", l |-> l, g |-> live[l]]
-  /\ UNCHANGED <<topo, awake, wann, gen, reg, pend, ctr, seen, tbl, tunVars>>
+  /\ UNCHANGED <<topo, awake, wann, gen, reg, torn, pend, ctr, seen, tbl, tunVars>>
 
 \* handleDisconnect(conn g) + handlePeerDisconnect at a for peer b
 PeerGone(a, b, g) ==
   /\ <<a, b, g>> \in gone
   /\ gone' = gone \ {<<a, b, g>>}
-  /\ reg' = [reg EXCEPT ![a][b] = IF @ = g THEN 0 ELSE @]
-  /\ pend' = IF reg[a][b] = g THEN pend \ {<<a, b>>} ELSE pend
-  /\ LET superseded == reg[a][b] \notin {0, g}
-         codeLike == "DevSkipCleanupWhenSuperseded" \in Dev       \* clean-up keyed by identity, skipped when superseded
-         rmRoute(e) == e.nh = b /\ (codeLike \/ e.g = g)
-         rmRelay(e) == (e.up = b /\ (codeLike \/ e.ug = g)) \/ (e.dn = b /\ (codeLike \/ e.dg = g))
-     IN /\ tbl' = IF (codeLike /\ superseded) \/ "DevRouteKeptAfterDisconnect" \in Dev THEN tbl
-                  ELSE [tbl EXCEPT ![a] = {e \in @ : ~rmRoute(e)}]
-        /\ relay' = IF (codeLike /\ superseded) \/ "DevRelayKeptAfterDisconnect" \in Dev THEN relay
-                    ELSE [relay EXCEPT ![a] = {e \in @ : ~rmRelay(e)}]
-        /\ last' = [act |-> "PeerGone", a |-> a, b |-> b, g |-> g, superseded |-> superseded]
-  /\ UNCHANGED <<topo, awake, wann, gen, live, ctr, seen, clean, q, tun, ingr, exr, sentN, rcvX, echoN, rcvI, bud>>
+  /\ torn' = torn \ {<<a, b, g>>}
+  /\ IF <<a, b, g>> \in torn
+     THEN \* the clean-up was done when b was registered again: nothing is left to do
+          /\ UNCHANGED <<reg, pend, tbl, seen, relay>>
+          /\ last' = [act |-> "PeerGone", a |-> a, b |-> b, g |-> g, superseded |-> TRUE, done |-> TRUE]
+     ELSE LET superseded == reg[a][b] \notin {0, g}
+              skip == codeLike /\ superseded          \* (the callback is not run for a superseded connection)
+          IN /\ reg' = [reg EXCEPT ![a][b] = IF @ = g THEN 0 ELSE @]
+             /\ pend' = IF reg[a][b] = g THEN pend \ {<<a, b>>} ELSE pend
+             /\ tbl' = IF skip THEN tbl ELSE [tbl EXCEPT ![a] = TblAfter(a, b, {g})]
+             /\ seen' = IF skip THEN seen ELSE [seen EXCEPT ![a] = SeenAfter(a, b, {g})]
+             /\ relay' = IF skip THEN relay ELSE [relay EXCEPT ![a] = RelayAfter(a, b, {g})]
+             /\ last' = [act |-> "PeerGone", a |-> a, b |-> b, g |-> g, superseded |-> superseded, done |-> FALSE]
+  /\ UNCHANGED <<topo, awake, wann, gen, live, ctr, clean, q, tun, ingr, exr, sentN, rcvX, echoN, rcvI, bud>>
 
 (* ---- flooding ---------------------------------------------------------------*)
 Nbrs(a) == {b \in Agent \ {a} : reg[a][b] > 0}
@@ -281,7 +320,7 @@ Replay(n, p) ==
              IN q' = PutSeq(q, n, p, own \o SetToSeq(msgs))
   /\ ctr' = IF n \in topo.exits /\ CanSend(n, p) THEN [ctr EXCEPT ![n] = @ + 1] ELSE ctr
   /\ last' = [act |-> "Replay", a |-> n, b |-> p]
-  /\ UNCHANGED <<topo, awake, wann, gen, live, reg, gone, seen, tbl, clean, tunVars, bud>>
+  /\ UNCHANGED <<topo, awake, wann, gen, live, reg, gone, torn, seen, tbl, clean, tunVars, bud>>
 
 ExpireRoutes(a) ==
   /\ bud.exp < MaxExpire /\ tbl[a] # {}
@@ -487,21 +526,21 @@ Sleep(a) ==
           /\ pend' = {x \in pend : x[1] # a}
           /\ q' = [d \in Dirs |-> IF a \in {d[1], d[2]} THEN Lost(q[d]) ELSE q[d]]
           /\ clean' = [x \in Agent |-> FALSE]
-  /\ UNCHANGED <<topo, gen, ctr, seen, tbl, tunVars>>
+  /\ UNCHANGED <<topo, gen, torn, ctr, seen, tbl, tunVars>>
 
 Wake(a) ==
   /\ ~awake[a]
   /\ awake' = [awake EXCEPT ![a] = TRUE]
   /\ wann' = [wann EXCEPT ![a] = a \in topo.exits]      \* exitSleep re-announces when the agent has local routes
   /\ last' = [act |-> "Wake", a |-> a]
-  /\ UNCHANGED <<topo, gen, live, reg, gone, pend, floodVars, q, tunVars, bud>>
+  /\ UNCHANGED <<topo, gen, live, reg, gone, torn, pend, floodVars, q, tunVars, bud>>
 
 WakeAnnounce(a) ==
   /\ wann[a] /\ awake[a]
   /\ wann' = [wann EXCEPT ![a] = FALSE]
   /\ AnnounceBody(a)
   /\ last' = [act |-> "WakeAnnounce", a |-> a]
-  /\ UNCHANGED <<topo, awake, gen, live, reg, gone, pend, seen, tbl, tunVars, bud>>
+  /\ UNCHANGED <<topo, awake, gen, live, reg, gone, torn, pend, seen, tbl, tunVars, bud>>
 
 Quiescent ==
   /\ \A d \in Dirs : q[d] = <<>>
@@ -532,6 +571,7 @@ Spec == Init /\ [][Next]_vars
 
 (* ---- properties ------------------------------------------------------------------------*)
 TypeOK ==
+  /\ torn \subseteq gone
   /\ \A p \in Pairs : live[p] <= gen[p] /\ gen[p] <= MaxGen /\ (live[p] > 0 => p \in topo.links)
   /\ \A a \in Agent, b \in Agent : reg[a][b] > 0 => (a # b /\ reg[a][b] <= gen[{a, b}])
   /\ \A a \in Agent : \A e \in tbl[a] : e.o # a /\ e.nh # a /\ Len(e.path) >= 1 /\ e.path[1] = e.nh
@@ -573,14 +613,18 @@ S1establish == [][\A t \in Tunnels : (tun'[t].st = "open" /\ tun[t].st # "open")
 (* is a registered neighbour, a relay entry refers to the registered        *)
 (* connections of the generations it was created over - or the disconnect   *)
 (* handling of that connection is still pending at this agent.              *)
-S2routes == \A a \in Agent : \A e \in tbl[a] : reg[a][e.nh] > 0 \/ \E g \in 1..MaxGen : <<a, e.nh, g>> \in gone
+S2routes == \A a \in Agent : \A e \in tbl[a] : reg[a][e.nh] > 0 \/ \E g \in 1..MaxGen : <<a, e.nh, g>> \in gone \ torn
 S2relay  == \A a \in Agent : \A e \in relay[a] :
-               /\ (reg[a][e.up] = e.ug \/ <<a, e.up, e.ug>> \in gone)
-               /\ (reg[a][e.dn] = e.dg \/ <<a, e.dn, e.dg>> \in gone)
+               /\ (reg[a][e.up] = e.ug \/ <<a, e.up, e.ug>> \in gone \ torn)
+               /\ (reg[a][e.dn] = e.dg \/ <<a, e.dn, e.dg>> \in gone \ torn)
 
 (* S3 - routes converge again: at quiescence every agent holds the routes   *)
 (* of every origin that announced after the last change (clean), as far as  *)
-(* live links reach.                                                        *)
+(* live links reach.  (Stronger, "what a connected neighbour holds is known *)
+(* here too", does not hold and is not what the code promises: triangle     *)
+(* a,b,c, exit c; b holds c's route of a newer sequence directly and has    *)
+(* marked a's replayed older copy as seen; link b-c fails: b drops the      *)
+(* route, a still has one, nothing replays it to b.)                        *)
 RECURSIVE ReachFrom(_)
 ReachFrom(S) == LET S2 == S \cup {n \in Agent : \E x \in S : x # n /\ live[{x, n}] > 0} IN IF S2 = S THEN S ELSE ReachFrom(S2)
 Learned(a, o) == \A r \in OwnRoutes(o) : \E e \in tbl[a] : e.o = o /\ e.r = r
